@@ -32,7 +32,7 @@ def tree_stages(ctx):
         stages.stage_sim(ctx, "Tree", num=300, depth=30)
     else:
         stages.stage_mc(ctx, "Tree", timeout=3000)
-        stages.stage_sim(ctx, "Tree", num=4000, depth=40)
+        stages.stage_sim(ctx, "Tree", num=1200, depth=40)
 
 
 RULE_WALK = ("cases are transitions of the bounded TLA+ model (Gtirb.tla under the listed configurations), each "
@@ -44,7 +44,7 @@ RULE_WALK = ("cases are transitions of the bounded TLA+ model (Gtirb.tla under t
 def p_tree(ctx):
     tree_stages(ctx)
     from . import driver
-    driver.stage_traces(ctx, "TraceTree", n_traces=30 if ctx.quick() else 400, length=60 if ctx.quick() else 120)
+    driver.stage_traces(ctx, "TraceTree", n_traces=30 if ctx.quick() else 300, length=60 if ctx.quick() else 100)
     if ctx.prop in ("C03", "C04"):
         stages.stage_repo_tests(ctx)
     if ctx.prop == "C16":
@@ -73,9 +73,9 @@ def geom_stages(ctx, lazy=False):
     for n, r in zip(names, results):
         stages.stage_graph_lookups(ctx, n, result=r, bases=bases if n != "GeomB2T" else (0,),
                                    per_step=6 if ctx.quick() else 10)
-    stages.stage_sim_lookups(ctx, "GeomSim", num=150 if ctx.quick() else 3000, depth=30 if ctx.quick() else 50,
+    stages.stage_sim_lookups(ctx, "GeomSim", num=150 if ctx.quick() else 1200, depth=30 if ctx.quick() else 50,
                              bases=bases[:2] if ctx.quick() else bases, per_step=10)
-    stages.stage_sim_lookups(ctx, "GeomBig", num=200 if ctx.quick() else 3000, depth=40, bases=bases[:1],
+    stages.stage_sim_lookups(ctx, "GeomBig", num=200 if ctx.quick() else 1500, depth=40, bases=bases[:1],
                              per_step=16, p_lookup=0.35)
 
 
@@ -96,7 +96,7 @@ def p_lazy(ctx):
     parallel(lambda n: run_tlc_config(n, emit=True), names)
     for n in names:
         stages.stage_lazy(ctx, n, max_run=150, bases=(0,) if ctx.quick() else (0, core.BASES["2^64-40"]))
-    stages.stage_sim_lookups(ctx, "LazySim", num=150 if ctx.quick() else 3000, depth=40, per_step=12, p_lookup=0.15)
+    stages.stage_sim_lookups(ctx, "LazySim", num=150 if ctx.quick() else 1200, depth=40, per_step=12, p_lookup=0.15)
     if not stages.WARM:
         lazy_index_stage(ctx)
         lazy_class_stage(ctx)
@@ -222,9 +222,9 @@ def p_sym(ctx):
         stages.stage_graph(ctx, n, result=r)
     if not ctx.quick():
         stages.stage_mc(ctx, "SymT", timeout=3000)
-    stages.stage_sim(ctx, "SymSim", num=150 if ctx.quick() else 3000, depth=30)
+    stages.stage_sim(ctx, "SymSim", num=150 if ctx.quick() else 1200, depth=30)
     from . import driver
-    driver.stage_traces(ctx, "TraceTree", n_traces=30 if ctx.quick() else 400, length=60 if ctx.quick() else 120)
+    driver.stage_traces(ctx, "TraceTree", n_traces=30 if ctx.quick() else 300, length=60 if ctx.quick() else 100)
     return "model_checking", RULE_WALK
 
 
@@ -235,7 +235,7 @@ def p_cfg(ctx):
     for n, r in zip(names, results):
         stages.stage_graph(ctx, n, result=r)
     from . import driver
-    driver.stage_traces(ctx, "TraceData", n_traces=30 if ctx.quick() else 400, length=60 if ctx.quick() else 120)
+    driver.stage_traces(ctx, "TraceData", n_traces=30 if ctx.quick() else 300, length=60 if ctx.quick() else 100)
     ctx.assumptions.append("nodes compared by identity, labels by value; label tokens map to fixed EdgeLabel values")
     return "model_checking", RULE_WALK
 
@@ -248,7 +248,7 @@ def p_bytes(ctx):
         stages.stage_graph_lookups(ctx, n, result=r, per_step=6,
                                    bases=(0, core.BASES["2^64-40"]))
     from . import driver
-    driver.stage_traces(ctx, "TraceData", n_traces=30 if ctx.quick() else 400, length=60 if ctx.quick() else 120)
+    driver.stage_traces(ctx, "TraceData", n_traces=30 if ctx.quick() else 300, length=60 if ctx.quick() else 100)
     return "model_checking", RULE_LOOKUP
 
 
